@@ -42,9 +42,9 @@ def h_encode(env):
         try:
             r = ref["M"].FromString(bytes(data))
         except Exception as e:
-            env.check("oracle:reference-accepts", False, repr(e))
+            env.check("witness:reference-accepts", False, repr(e))
             return
-        env.check("oracle:reference-view==value", sm.canon_equal(cat, "M", sm.canon_of_ref(cat, "M", r), exp))
+        env.check("witness:reference-view==value", sm.canon_equal(cat, "M", sm.canon_of_ref(cat, "M", r), exp))
 
 
 def h_decode(env):
